@@ -24,7 +24,7 @@ RULE = ("case = (A) in-memory scenario: 1-3 concurrent calls x arrival order of 
 ASSUMPTIONS = ["a caller is hung when the listener task has exited (nothing can complete its future any more) and the caller is still blocked after a generous grace period",
                "which exception a failed call raises is not prescribed"]
 MIN_COUNTS = {"quick": {"nontrivial": 350, "calls_accounted": 800, "scenarios_with_2plus_pending_at_cut": 100, "late_calls": 100, "paused_calls_stopped_at_a_line": 6},
-              "thorough": {"nontrivial": 2000, "calls_accounted": 5000, "scenarios_with_2plus_pending_at_cut": 450, "late_calls": 1400, "paused_calls_stopped_at_a_line": 50}}
+              "thorough": {"nontrivial": 2000, "calls_accounted": 5000, "scenarios_with_2plus_pending_at_cut": 450, "late_calls": 1400, "paused_calls_stopped_at_a_line": 40}}
 CASE_TIMEOUT = 300
 MIN_SHARD = 8
 
